@@ -5,7 +5,7 @@ import common as C
 import gen
 from props import util
 
-THEOREMS = ['C17_scenarios_share_the_present', 'C17_at_most_mean_of_scenario_optima', 'C17_at_least_every_fixed_present',
+THEOREMS = ['C17_scenarios_share_the_present', 'C17_feasible_points_project', 'C17_at_most_mean_of_scenario_optima', 'C17_at_least_every_fixed_present',
             'C17_identical_scenarios', 'C17_robust_worst_case_ge_every_point', 'C17_robust_le_smallest_scenario_optimum']
 CFG = {'p_coarse': 0.0, 'p_periodic': 0.0, 'T': (4, 8), 'n_assets': (1, 4), 'nodes': (1, 3), 'p_window': 0.3, 'p_market': 0.95, 'p_wacc': 0.6,
        'p_cap_key': 0.0, 'tzs': [None],
@@ -13,7 +13,7 @@ CFG = {'p_coarse': 0.0, 'p_periodic': 0.0, 'T': (4, 8), 'n_assets': (1, 4), 'nod
 
 
 def run(ctx):
-    if not ctx.proof_gate(THEOREMS, ['SLP.vo', 'Build.vo']):
+    if not ctx.proof_gate(THEOREMS, ['SLP.vo', 'SLPProofs.vo', 'Build.vo']):
         return
     n = 40 if ctx.tier == 'quick' else 300
     specs = util.corpus(ctx.prop) + gen.gen_many(ctx.seed, n, CFG, 'c17_')
